@@ -63,8 +63,8 @@ fn opt_mem_clone(m: &Option<MemArc>) -> (r: Option<MemArc>) { unimplemented!() }
 // KeyValueStoreState: what the state mutex protects (the fields the regions touch)
 struct KvState { seq_no: u64, visible_seq_no: u64, mem: MemArc, mem_log: LogArc, imm: Option<MemArc> }
 impl KvState {
-    // THE MONITOR INVARIANT
-    spec fn inv(&self) -> bool { all_applied(self.visible_seq_no) }
+    // THE MONITOR INVARIANT: what readers snapshot at is a fully applied prefix, and never ahead of what has been handed out
+    spec fn inv(&self) -> bool { all_applied(self.visible_seq_no) && self.visible_seq_no <= self.seq_no }
 }
 struct KeyValuePair { timestamp: u64 }
 struct WriteBatch { entries: Vec<KeyValuePair> }
@@ -82,7 +82,7 @@ impl WaitGuard {
     #[verifier::external_body]
     fn naked_wait(&self, state: &mut KvState)
         requires old(state).inv(),
-        ensures final(state).inv(),
+        ensures final(state).inv(), final(state).seq_no >= old(state).seq_no,
     { unimplemented!() }
 }
 #[verifier::external_body]
@@ -141,12 +141,15 @@ fn write_sequence(kvs: &KeyValueStore, state: &mut KvState, batch: &mut WriteBat
         final(state).inv(), final(state).visible_seq_no == old(state).visible_seq_no,
         // the writer holds the timestamp it stamped its batch with, fresh, and a guard linked under that timestamp
         r.3 == old(state).seq_no + 1, final(state).seq_no == r.3, r.0.seq() == r.3,
+        // ... which lies above every timestamp any read has snapshotted at so far: a scan opened earlier never shows this write
+        r.3 > old(state).visible_seq_no,
         final(batch).entries@.len() == old(batch).entries@.len(),
         forall|i: int| 0 <= i < final(batch).entries@.len() ==> (#[trigger] final(batch).entries@[i]).timestamp == r.3,
 //@ >>
 //@ loop 0 <<
-                invariant batch.entries@.len() == old(batch).entries@.len(), seq_no == old(state).seq_no + 1, state.seq_no == seq_no,
+                invariant batch.entries@.len() == old(batch).entries@.len(), /* contract-inv */ seq_no == old(state).seq_no + 1 && state.seq_no == seq_no,
                     /* contract-inv */ state.visible_seq_no == old(state).visible_seq_no,
+                    state.visible_seq_no <= state.seq_no,
                     wait_guard.seq() == seq_no,
                     forall|i: int| 0 <= i < idx ==> (#[trigger] batch.entries@[i]).timestamp == seq_no,
 //@ >>
@@ -172,6 +175,8 @@ fn write_publish(kvs: &KeyValueStore, state: &mut KvState, mut wait_guard: WaitG
 //@ pre <<
         // any state the other threads' critical sections can leave; this writer's log_and_apply has returned
         old(state).inv(), wait_guard.seq() == seq_no, seq_no >= 1, applied(seq_no),
+        // this writer's timestamp was handed out earlier; the counter never goes back
+        seq_no <= old(state).seq_no,
 //@ >>
 //@ post <<
         final(state).inv(),
@@ -179,8 +184,8 @@ fn write_publish(kvs: &KeyValueStore, state: &mut KvState, mut wait_guard: WaitG
         final(state).visible_seq_no >= seq_no,
 //@ >>
 //@ loop 0 <<
-            invariant state.inv(), wait_guard.seq() == seq_no, seq_no >= 1,
-            ensures state.inv(), wait_guard.seq() == seq_no, all_applied((seq_no - 1) as u64),
+            invariant state.inv(), wait_guard.seq() == seq_no, seq_no >= 1, seq_no <= state.seq_no,
+            ensures state.inv(), wait_guard.seq() == seq_no, all_applied((seq_no - 1) as u64), seq_no <= state.seq_no,
 //@ >>
 //@ afterloop 0 <<
         proof {
@@ -209,8 +214,8 @@ fn load_snapshot(kvs: &KeyValueStore, state: &KvState) -> (r: (MemArc, Option<Me
         state.inv(),
 //@ >>
 //@ post <<
-        // the snapshot covers fully applied batches only
-        all_applied(r.3),
+        // the snapshot covers fully applied batches only, and lies at or below every timestamp still to be handed out
+        all_applied(r.3), r.3 <= state.seq_no,
 //@ >>
 //@ end
 //@ extract lsmtk/src/kvs/mod.rs | impl KeyValueStore :: fn range_scan
@@ -231,7 +236,7 @@ fn scan_snapshot(kvs: &KeyValueStore, state: &KvState) -> (r: (MemArc, Option<Me
         state.inv(),
 //@ >>
 //@ post <<
-        all_applied(r.3),
+        all_applied(r.3), r.3 <= state.seq_no,
 //@ >>
 //@ end
 
@@ -244,7 +249,7 @@ struct PathBuf { _p: u8 }
 struct Root { _p: u8 }
 struct RollState { seq_no: u64, visible_seq_no: u64, mem: MemArc, mem_log: LogArc, imm: Option<MemArc>, imm_trigger: u64, mem_seq_no: u64, mem_path: PathBuf }
 impl RollState {
-    spec fn inv(&self) -> bool { all_applied(self.visible_seq_no) }
+    spec fn inv(&self) -> bool { all_applied(self.visible_seq_no) && self.visible_seq_no <= self.seq_no }
 }
 #[verifier::external_body]
 fn log_file(root: &Root, n: u64) -> (r: PathBuf) { unimplemented!() }
